@@ -110,7 +110,7 @@ fn call_step(with_redirect: bool, allow_loop_flow: bool) {
 #[kani::unwind(4)]
 fn vk_c02_function_call_full() { call_step(false, true); }
 
-//@proof {'props': ['C02', 'C18'], 'tier': 'quick', 'timeout': 900, 'uses': ['invoke_fn'], 'bounds': 'function with 0 definition-time redirects; enter may fail; body outcome arbitrary (status; flow in normal/return/exit) or Err - the D16 region (break/continue from the body) is assumed away', 'desc': 'function call: enter/leave paired on every path, body strictly inside, return consumed at the call boundary, exit propagates, status is the body status, a body error propagates only after the leave'}
+//@proof {'props': ['C02', 'C18', 'C16'], 'tier': 'quick', 'timeout': 900, 'uses': ['invoke_fn'], 'bounds': 'function with 0 definition-time redirects; enter may fail; body outcome arbitrary (status; flow in normal/return/exit) or Err - the D16 region (break/continue from the body) is assumed away', 'desc': 'function call: enter/leave paired on every path, body strictly inside, return consumed at the call boundary, exit propagates, status is the body status, a body error propagates only after the leave'}
 #[kani::proof]
 #[kani::unwind(4)]
 fn vk_c02_function_call_modulo_known() { call_step(false, false); }
